@@ -87,6 +87,11 @@ def snapshot(self):
         return None
 
 
+def desc_order(text):
+    """annotated order of a stored descriptor (kind + label + order): the aromatic symbol ':' is stored as 1.5"""
+    return 1.5 if str(text).endswith('1.5') else int(str(text)[-1])
+
+
 def _order_ok(t_order, f_order, both_aromatic):
     if t_order == f_order:
         return True
@@ -251,7 +256,7 @@ def _check(pre, cg, aa):
         if not compatible_ref(pair[0], pair[1], legacy):
             rec('C03', 'c03.incompatible_pair', f'{tag} bond {u}-{v} was formed from {pair} (legacy={legacy})')
         try:
-            o0, o1 = int(pair[0][-1]), int(pair[1][-1])
+            o0, o1 = desc_order(pair[0]), desc_order(pair[1])
         except ValueError:
             rec('C03', 'c03.descriptor_format', f'{tag} descriptor pair {pair} without order digit')
             continue
